@@ -4,7 +4,9 @@ import (
 	"fmt"
 	"os"
 	"path/filepath"
+	"strconv"
 	"strings"
+	"time"
 
 	"github.com/johannesboyne/gofakes3"
 	"github.com/johannesboyne/gofakes3/backend/s3afero"
@@ -103,6 +105,12 @@ func c15Crash(kind string) {
 		for _, pt := range points {
 			s, cs := mk(false)
 			setup(s)
+			if strings.Contains(cc.name, "same-length") {
+				// the backends tell a rewritten file from its metadata record by size and modification
+				// time: let the clock move on (coarse file-system timestamps) so that this is a test of
+				// the crash points and not of timestamp granularity
+				time.Sleep(15 * time.Millisecond)
+			}
 			cs.ctl.crashAt, cs.ctl.partial = cs.ctl.count+pt.n, pt.partial
 			s.startCapture()
 			cc.run(s)
@@ -111,7 +119,19 @@ func c15Crash(kind string) {
 			if pt.partial {
 				label = fmt.Sprintf("%s@%d/%d:during-%s", cc.name, pt.n, len(calls), calls[pt.n-1])
 			}
-			emit("c15", "CRASH", hs(label))
+			// position in the model's call sequence (creating and pruning directories are not steps of the model)
+			nModel := 0
+			var modelCalls []string
+			for i, c := range calls {
+				if strings.Contains(c, "Mkdir") || strings.Contains(c, "Rmdir") {
+					continue
+				}
+				modelCalls = append(modelCalls, c)
+				if i < pt.n-1 {
+					nModel++
+				}
+			}
+			emit("c15", "CRASH", hs(label), strconv.Itoa(nModel), boolField(pt.partial), joinHex(modelCalls))
 			died := cs.ctl.dead
 			for _, c := range recs {
 				if died {
